@@ -482,6 +482,28 @@ func cmpGoroutines(want, got []*stack.Goroutine) error {
 	return nil
 }
 
+// funcFlagsConsistent: what a symbol is (exported, package main) cannot depend on where it is
+// printed: the same import path and name as a frame, as a creator, and as a creator followed
+// by " in goroutine N" carry the same flags within one snapshot.
+func funcFlagsConsistent(gs []*stack.Goroutine) error {
+	type key struct{ imp, name string }
+	type flags struct{ exported, main bool }
+	seen := map[key]flags{}
+	for _, g := range gs {
+		for _, st := range []*stack.Stack{&g.Stack, &g.CreatedBy} {
+			for i := range st.Calls {
+				f := &st.Calls[i].Func
+				k, v := key{f.ImportPath, f.Name}, flags{f.IsExported, f.IsPkgMain}
+				if p, ok := seen[k]; ok && p != v {
+					return fmt.Errorf("symbol %q %q is exported=%v main=%v in one place and exported=%v main=%v in another (%q)", f.ImportPath, f.Name, p.exported, p.main, v.exported, v.main, f.Complete)
+				}
+				seen[k] = v
+			}
+		}
+	}
+	return nil
+}
+
 // docIsPtr is the pointer classification as documented next to pointerFloor/pointerCeiling.
 func docIsPtr(v uint64) (isPtr, decided bool) {
 	switch {
